@@ -179,14 +179,38 @@ CHECKS = {
         ref="3.5 T1/T2, 4 (C15)"),
 }
 
+CHECKS['C11'] = dict(
+    text="Decides three structural clauses for PolarStereographic, LambertConformalConic and AlbersEqualArea: (S2) a parity "
+         "type system proves that Forward/Reverse treat the southern aspect as the exact mirror image of the northern one - "
+         "under the reflection (sign, lat, y, gamma) -> (-sign, -lat, -y, -gamma) every output has the parity the mirror "
+         "symmetry requires, i.e. each hemisphere-sign factor is applied exactly once (24 outputs); (D1) every setter that "
+         "rewrites a member re-establishes each member the constructors derive from it (dependences read from Init); (X5) "
+         "the constructors and SetScale reject every bad cell of a, f, k0, the standard latitudes (incl. aliases mod 360) "
+         "and sin/cos pairs; plus the error clauses X1/X3 for these classes.",
+    note="NARROW: agreement with the textbook formulas, conformality/equal-area, the 10 nm round trips, the divided-difference "
+         "accuracy and the value SetScale establishes are numerical and NOT decided. S2 and D1 each found a genuine defect "
+         "(fixed: c2e6538, 98d65ff).",
+    technique="parity (even/odd) type inference over the AST + member def-use dependence vs setter write sets + witness interpretation of constructor guards",
+    ref="3.9, 4 (C11)")
+CHECKS['C19'] = dict(
+    text="Decides structural clauses of the harmonic/gravity/magnetic code: (DSP) every run-time to compile-time dispatch "
+         "agrees with itself - inside `case K` the normalisation template argument of SphericalEngine::Value/Circle is K, "
+         "the coefficient-set count L equals the extent of the coefficient array passed, the gradient flag matches whether "
+         "the caller's gradient outputs are bound (72 obligations over SphericalHarmonic, 1, 2); (I1) request-flag "
+         "independence: inside `if (gradp)` / `if (diffp)` no value that was defined before and feeds a result returned for "
+         "both settings is overwritten (so the potential is the same number with and without the gradient); and the error "
+         "clauses for the model readers (X1 throw type, X3 outputs committed last, X6 loops bounded).",
+    note="NARROW: the Clenshaw sums, time interpolation, rotation to ENU, normal-gravity constants and circle/direct "
+         "agreement as numbers are NOT decided. I1 found a genuine defect (fixed: cd4324e).",
+    technique="case-region / template-argument agreement over the AST + def-use check of flag-guarded regions + CFG typestate",
+    ref="3.10, 4 (C19)")
+
 NOT_APPLICABLE = {
     'C07': "numerical identities over R^3 (closed form, round trip, orthonormality); no clause is visible in the shape of the code. Constructor validation is decided under C13.",
-    'C11': "textbook-formula agreement, conformality, equal-area and 10 nm round trips are statements about floating-point values; constructor/SetScale validation is decided under C13.",
     'C16': "quantifies exhaustively over floating-point inputs; correctness of remquo reduction, two-sum and the accumulator is arithmetic, not code shape (the no-fast-math precondition is linted under C13).",
-    'C19': "Clenshaw sums, time interpolation and normal-gravity constants are numerical; a sibling diff of Value/Circle would be a frozen-fragment proxy.",
 }
 
-PENDING = ['C01', 'C02', 'C03', 'C04', 'C05', 'C06', 'C08', 'C09', 'C10', 'C12', 'C13', 'C15', 'C17', 'C18', 'C20']
+PENDING = ['C11', 'C19', 'C01', 'C02', 'C03', 'C04', 'C05', 'C06', 'C08', 'C09', 'C10', 'C12', 'C13', 'C15', 'C17', 'C18', 'C20']
 
 
 def manifest():
